@@ -15,6 +15,7 @@
 package internal
 
 import (
+	"errors"
 	"iter"
 	"maps"
 	"net/http"
@@ -54,11 +55,24 @@ func (r RawDeltaSeconds) Value() (dur time.Duration, valid bool) {
 	}
 	seconds, err := strconv.ParseInt(string(r), 10, 64)
 	if err != nil {
+		if errors.Is(err, strconv.ErrRange) {
+			// Too large to represent: RFC 9111 §1.2.2 says to treat it as the
+			// greatest value we can represent rather than to reject it.
+			return maxDeltaSeconds, true
+		}
 		return
+	}
+	if seconds > int64(maxDeltaSeconds/time.Second) {
+		// time.Duration counts nanoseconds; do not let the conversion wrap around.
+		return maxDeltaSeconds, true
 	}
 
 	return time.Duration(seconds) * time.Second, true
 }
+
+// maxDeltaSeconds is the largest delta-seconds value representable as a
+// [time.Duration] (about 292 years, well above the 2^31 seconds of RFC 9111 §1.2.2).
+const maxDeltaSeconds = time.Duration(1<<63-1) / time.Second * time.Second
 
 // RawCSVSeq is a string that represents a sequence of comma-separated values.
 type RawCSVSeq string
